@@ -123,6 +123,12 @@ def moment_worker(sub, item):
     name = f"C04/sum-rule/{rule}/{modname}.{clsname}.{ORDER_NAME[order]}/nf={nf}"
     try:
         rsl = get_rsl(sy, modname, clsname, order, nf)
+        if rsl is None:
+            # the class answers this order with "no coefficient" (an empty channel): its first moment is 0
+            exp = expected(order, nf)
+            ok = abs(exp) == 0
+            sub.add(Ob(name, "lemma", PROVED if ok else REFUTED, "moments", 0, f"{modname}.{clsname}.{ORDER_NAME[order]}() returns None (no coefficient at this order): M1 = 0, expected {mp.nstr(exp, 12)}", {} if ok else {"class": f"{modname}.{clsname}", "order": ORDER_NAME[order], "nf": nf, "first_moment": 0.0, "expected": float(exp)}, {} if ok else {"confirmed": True, "observed_native": "the real class returns None for this order", "expected_spec": float(exp)}))
+            return
         p = parts(sy, rsl, sy.z)
         m_reg, gross = first_moment(p["reg"], sy.z, pre) if "reg" in p else (mp.mpf(0), mp.mpf(0))
         delta = value_at_zero(p["loc"], sy.z, pre) if "loc" in p else mp.mpf(0)
